@@ -73,6 +73,13 @@ class C10Harness(DocMixin):
             return SKIP
         os_ = app.run_main(self.scan_argv, [(F, d)])
         ds = content(os_)
+        if self.p.get("second") is not None:
+            # two files in one invocation; the second (processed last) is given
+            G = "/vfs/g.md"
+            of = app.run_main(self.fix_argv + [G], [(F, d), (G, self.p["second"])])
+            d1 = content(of)
+            g1 = [t for n, t in of.files if n == G][0]
+            return (d, ds, os_, d1, of, G, g1)
         of = app.run_main(self.fix_argv, [(F, d)])
         d1 = content(of)
         return (d, ds, os_, d1, of)
@@ -80,13 +87,16 @@ class C10Harness(DocMixin):
     def judge(self, obs, v):
         if isinstance(obs, Raised):
             return raised_verdict(obs)
+        if len(obs) == 7:
+            d, ds, os_, d1, of, G, g1 = obs
+            return scan_props.c10_two(d, d1, self.p["second"], g1, of, F, G, self.minimal)
         d, ds, os_, d1, of = obs
         return scan_props.c10(d, ds, os_, d1, of, self.fixable, F, self.minimal)
 
     def digest(self, obs, rv):
         if isinstance(obs, Raised):
             return "raised:" + obs.root_type + "@" + obs.site
-        d, ds, os_, d1, of = obs
+        d, ds, os_, d1, of = obs[:5]
         with NoTracing():
             return f"{os_.code}/{of.code}:{len(of.fixed)}:" + ",".join(sorted({f.rule_id for f in os_.fails}))
 
